@@ -21,15 +21,24 @@ theorem goodCache_fresh (c : Bool) (inst : Instance) : GoodCache c inst (St.fres
   subst e
   cases hk
 
-/-- TOTAL CORRECTNESS of `solve_root_goal` (no interruption, no work budget, the repaired code) -/
-theorem solveRootGoal_correct (hyp : Hyp c inst dom) (h3 : cfg.fixF3 = true) (h7 : cfg.fixF7 = true)
+/-- every cache entry is the correct answer (vacuous when caching is disabled) -/
+def CacheOK (c : Bool) (inst : Instance) (s : St) : Prop := ∀ k v, InCache s k v → Corr c inst k v
+
+theorem cacheOK_of_none {s : St} (h : s.cache = none) : CacheOK c inst s := by
+  rintro k v ⟨cc, e, _⟩
+  rw [h] at e
+  cases e
+
+/-- TOTAL CORRECTNESS of `solve_root_goal` (no interruption, no work budget, the repaired code),
+    caching enabled or disabled -/
+theorem solveRootGoal_correct_any (hyp : Hyp c inst dom) (h3 : cfg.fixF3 = true) (h7 : cfg.fixF7 = true)
     (hb : cfg.budget = none) (hov : dom.length ≤ cfg.overflowDepth) (hr : 2 ≤ cfg.rounds)
-    (s : St) (hq : s.oracle = [] ∧ s.oracleDefault = true) (hgc : GoodCache c inst s)
+    (s : St) (hq : s.oracle = [] ∧ s.oracleDefault = true) (hok : CacheOK c inst s)
     (g : Nat) (hg : g ∈ dom) :
     ∃ v s', solveRootGoal inst cfg g s = .ok v s' ∧ Corr c inst g v ∧
-      s'.stack = [] ∧ s'.graph = [] ∧ GoodCache c inst s' := by
+      s'.stack = [] ∧ s'.graph = [] ∧ CacheOK c inst s' ∧ s'.cache.isSome = s.cache.isSome := by
   have i1 : Inv c inst dom { s with stack := [], graph := [], interrupted := false } := by
-    refine ⟨⟨hq.1, hq.2, rfl⟩, hgc.1, hgc.2, ?_, List.nodup_nil, ?_, ?_, ?_, ?_, ?_, ?_, rfl, ?_⟩
+    refine ⟨⟨hq.1, hq.2, rfl⟩, hok, ?_, List.nodup_nil, ?_, ?_, ?_, ?_, ?_, ?_, rfl, ?_⟩
     · intro e he; cases he
     all_goals first
       | (intro i n d hn; exact absurd hn (by simp))
@@ -52,7 +61,7 @@ theorem solveRootGoal_correct (hyp : Hyp c inst dom) (h3 : cfg.fixF3 = true) (h7
       | none =>
         obtain ⟨l, _, hl⟩ := i'.nonstk 0 n hn hsd
         exact Nat.not_lt_zero _ hl
-  refine ⟨v, s', ?_, ?_, hstack, hgraph, i'.cacheOn, i'.cacheOK⟩
+  refine ⟨v, s', ?_, ?_, hstack, hgraph, i'.cacheOK, hs'.cacheMode⟩
   · unfold solveRootGoal
     simp only [h7, h3, Bool.not_true, Bool.false_and, Bool.false_eq_true, if_false, if_true]
     rw [hrun]
@@ -66,6 +75,36 @@ theorem solveRootGoal_correct (hyp : Hyp c inst dom) (h3 : cfg.fixF3 = true) (h7
         rw [hgraph] at hn
         simp at hn
     | inr h => exact Or.inr ⟨h.1, h.2.1⟩
+
+/-- … with caching enabled -/
+theorem solveRootGoal_correct (hyp : Hyp c inst dom) (h3 : cfg.fixF3 = true) (h7 : cfg.fixF7 = true)
+    (hb : cfg.budget = none) (hov : dom.length ≤ cfg.overflowDepth) (hr : 2 ≤ cfg.rounds)
+    (s : St) (hq : s.oracle = [] ∧ s.oracleDefault = true) (hgc : GoodCache c inst s)
+    (g : Nat) (hg : g ∈ dom) :
+    ∃ v s', solveRootGoal inst cfg g s = .ok v s' ∧ Corr c inst g v ∧
+      s'.stack = [] ∧ s'.graph = [] ∧ GoodCache c inst s' := by
+  obtain ⟨v, s', h1, h2, h3', h4, h5, h6⟩ := solveRootGoal_correct_any hyp h3 h7 hb hov hr s hq hgc.2 g hg
+  refine ⟨v, s', h1, h2, h3', h4, ?_, h5⟩
+  obtain ⟨cc, hcc⟩ := hgc.1
+  rw [hcc] at h6
+  cases hc' : s'.cache with
+  | none => rw [hc'] at h6; cases h6
+  | some cc' => exact ⟨cc', rfl⟩
+
+/-- … with caching disabled -/
+theorem solveRootGoal_correct_nocache (hyp : Hyp c inst dom) (h3 : cfg.fixF3 = true) (h7 : cfg.fixF7 = true)
+    (hb : cfg.budget = none) (hov : dom.length ≤ cfg.overflowDepth) (hr : 2 ≤ cfg.rounds)
+    (s : St) (hq : s.oracle = [] ∧ s.oracleDefault = true) (hnc : s.cache = none)
+    (g : Nat) (hg : g ∈ dom) :
+    ∃ v s', solveRootGoal inst cfg g s = .ok v s' ∧ Corr c inst g v ∧
+      s'.stack = [] ∧ s'.graph = [] ∧ s'.cache = none := by
+  obtain ⟨v, s', h1, h2, h3', h4, _, h6⟩ :=
+    solveRootGoal_correct_any hyp h3 h7 hb hov hr s hq (cacheOK_of_none hnc) g hg
+  refine ⟨v, s', h1, h2, h3', h4, ?_⟩
+  rw [hnc] at h6
+  cases hc' : s'.cache with
+  | none => rfl
+  | some cc' => rw [hc'] at h6; cases h6
 
 /-- a plain call (`Solver::solve`) on a solver whose cache is good -/
 theorem plainCall_correct (hyp : Hyp c inst dom) (h3 : cfg.fixF3 = true) (h7 : cfg.fixF7 = true)
@@ -97,6 +136,48 @@ theorem history_correct (hyp : Hyp c inst dom) (h3 : cfg.fixF3 = true) (h7 : cfg
   have hgood := history_good hyp h3 h7 hov hr gs hd _ (goodCache_fresh c inst)
   obtain ⟨v, s', h1, h2, _⟩ := plainCall_correct hyp h3 h7 hov hr _ hgood g hg
   exact ⟨v, by unfold solveOn; rw [h1]; rfl, h2⟩
+
+/-- a plain call on a solver without cache -/
+theorem plainCall_correct_nocache (hyp : Hyp c inst dom) (h3 : cfg.fixF3 = true) (h7 : cfg.fixF7 = true)
+    (hov : dom.length ≤ cfg.overflowDepth) (hr : 2 ≤ cfg.rounds)
+    (s : St) (hnc : s.cache = none) (g : Nat) (hg : g ∈ dom) :
+    ∃ v s', runCall inst cfg (Call.plain g) s = .ok v s' ∧ Corr c inst g v ∧ s'.cache = none := by
+  obtain ⟨v, s', h1, h2, _, _, h5⟩ := solveRootGoal_correct_nocache (cfg := { cfg with budget := none })
+    hyp h3 h7 rfl hov hr { s with oracle := [], oracleDefault := true, work := 0 } ⟨rfl, rfl⟩ hnc g hg
+  exact ⟨v, s', h1, h2, h5⟩
+
+theorem history_nocache (hyp : Hyp c inst dom) (h3 : cfg.fixF3 = true) (h7 : cfg.fixF7 = true)
+    (hov : dom.length ≤ cfg.overflowDepth) (hr : 2 ≤ cfg.rounds) :
+    ∀ (gs : List Nat), (∀ g, g ∈ gs → g ∈ dom) → ∀ s, s.cache = none →
+      (runHistory inst cfg (gs.map Call.plain) s).cache = none
+  | [], _, _, h => h
+  | g :: gs, hd, s, h => by
+    simp only [List.map_cons, runHistory]
+    obtain ⟨v, s', h1, _, h3'⟩ := plainCall_correct_nocache hyp h3 h7 hov hr s h g (hd g (List.mem_cons_self ..))
+    rw [h1]
+    exact history_nocache hyp h3 h7 hov hr gs (fun x hx => hd x (List.mem_cons_of_mem _ hx)) s' h3'
+
+/-- the answer of a plain call after any history of plain calls, caching disabled -/
+theorem history_correct_nocache (hyp : Hyp c inst dom) (h3 : cfg.fixF3 = true) (h7 : cfg.fixF7 = true)
+    (hov : dom.length ≤ cfg.overflowDepth) (hr : 2 ≤ cfg.rounds)
+    (gs : List Nat) (hd : ∀ g, g ∈ gs → g ∈ dom) (g : Nat) (hg : g ∈ dom) :
+    ∃ v, solveOn inst cfg g (runHistory inst cfg (gs.map Call.plain) (St.fresh false)) = .value v ∧
+      Corr c inst g v := by
+  have hnc := history_nocache hyp h3 h7 hov hr gs hd (St.fresh false) rfl
+  obtain ⟨v, s', h1, h2, _⟩ := plainCall_correct_nocache hyp h3 h7 hov hr _ hnc g hg
+  exact ⟨v, by unfold solveOn; rw [h1]; rfl, h2⟩
+
+/-- two correct answers for the same goal are equal -/
+theorem Corr.unique {k : Nat} {v w : V} (h1 : Corr c inst k v) (h2 : Corr c inst k w) : v = w := by
+  cases h1 with
+  | inl a =>
+    cases h2 with
+    | inl b => rw [a.1, b.1]
+    | inr b => exact absurd a.2 b.2
+  | inr a =>
+    cases h2 with
+    | inl b => exact absurd b.2 a.2
+    | inr b => rw [a.1, b.1]
 
 end
 
